@@ -62,7 +62,9 @@ def probe_all(ctx, s, keys, true, where):
                 ctx.fail(f"a key owning an unshared counter is not estimated exactly {where}", key=k, estimate=est, true=true[k],
                          unshared_rows=len(own), rows=len(cellmap[k]))
         ctx.check((k in s) == (est != 0), f"`in` disagrees with check() {where}", key=k)
-        ctx.check(s.check_alt(s.hashes(k)) == est, f"check_alt(hashes(key)) disagrees with check(key) {where}", key=k)
+        arg, cp = bl.alt_arg(ctx, s.hashes(k))
+        ctx.check(s.check_alt(arg) == est, f"check_alt(hashes(key)) disagrees with check(key) {where}", key=k)
+        bl.arg_unchanged(ctx, arg, cp, "check_alt")
     ctx.count("full_probes")
 
 
@@ -96,7 +98,9 @@ def wl_history(ctx, rng, case, force_width=None):
                 ret = s.add(k, n) if n != 1 or rng.random() < 0.5 else s.add(k)
             else:
                 case.op("add_alt", k, n)
-                ret = s.add_alt(s.hashes(k), n)
+                arg, cp = bl.alt_arg(ctx, s.hashes(k))
+                ret = s.add_alt(arg, n)
+                bl.arg_unchanged(ctx, arg, cp, "add_alt")
             true[k] += n
             ctx.count("op.add")
         elif r < 0.92:
@@ -107,7 +111,9 @@ def wl_history(ctx, rng, case, force_width=None):
                 ret = s.remove(k, n) if n != 1 or rng.random() < 0.5 else s.remove(k)
             else:
                 case.op("remove_alt", k, n)
-                ret = s.remove_alt(s.hashes(k), n)
+                arg, cp = bl.alt_arg(ctx, s.hashes(k))
+                ret = s.remove_alt(arg, n)
+                bl.arg_unchanged(ctx, arg, cp, "remove_alt")
             true[k] -= n
             removes += 1
             ctx.count("op.remove")
